@@ -197,7 +197,7 @@ theorem mutual_domRel (T : Nat) (cfg : MCfg) (fuel : Nat) :
         · cases h; exact DomRel.refl _ _
         · simp only at h
           split at h
-          · cases h
+          · cases h; exact DomRel.of_conts rfl rfl rfl
           · rename_i pa hpa
             split at h
             · cases h; exact DomRel.of_conts rfl rfl rfl
